@@ -578,6 +578,9 @@ PROPS = {
               dict(driver="hist", args=["--nops", "90", "--per-file", "6", "--profile", "fill",
                                         "--compact-bias", "1", "--jitter", "350"],
                    quick=32, thorough=800),
+              # what crash recovery needs must also survive an I/O error (a failed switch of
+              # CURRENT must not let the deletion pass remove the manifest CURRENT still names)
+              dict(driver="fault", args=["--nops", "22", "--positions", "60"], quick=2, thorough=20),
               # read views given back on every path: gets suspended after their capture while
               # flushes and compactions install newer versions - one of them then FAILS (a
               # transient read fault); at the end exactly one version is linked and only its
